@@ -5,3 +5,31 @@ CHECKS = {
                 quick=dict(batches=16, runs=30, race_batches=8, race_runs=12, timeout=900),
                 thorough=dict(batches=64, runs=500, race_batches=32, race_runs=120, timeout=3000)),
 }
+
+NA_PURE = "pure single-threaded function of its input: no schedule, clock, stream fault, nondeterminism seam or operation history can change its truth, so a simulator has nothing to own (DESIGN.md §2, §5)"
+NOT_APPLICABLE = {
+    "C01": "Newick write/parse round trip: " + NA_PURE + "; the only seam on its path (reader chunking) is absorbed by bufio inside the parser",
+    "C05": "re-rooting/unrooting/reordering preserve the tree: " + NA_PURE,
+    "C06": "pruning yields the induced subtree: " + NA_PURE,
+    "C07": "collapse/resolve: " + NA_PURE + "; Resolve's random pairing is a function of the seed, 'all random choices' is again an input quantifier",
+    "C12": "parsimony optimality: a dynamic programme over (tree, tip states); " + NA_PURE,
+    "C14": "distance matrices and length-threshold clusters: " + NA_PURE,
+    "C16": "generators return valid trees: pure function of (size, rootedness, seed); " + NA_PURE,
+    "C19": "omitted option = documented default: a static fact about flag registration fixed at link time by Go's deterministic init order; nothing varies at run time for a simulator to explore",
+    "C20": "random selection is unbiased: a statement about a probability distribution over seeds; deciding it is statistical hypothesis testing, a simulator has no invariant to check",
+}
+PENDING = "check under construction in this round (engine designed in DESIGN.md §4, not yet registered)"
+for _p in ["C02", "C03", "C04", "C08", "C09", "C10", "C13", "C15", "C17", "C18"]:
+    if _p not in CHECKS:
+        NOT_APPLICABLE[_p] = PENDING
+
+TEXTS = {
+    "C11": dict(
+        level_text="Seeded search over goroutine interleavings, thread counts and fault positions of the real worker pools (Compare, CompareWeighted, FBP, TBE) "
+                   "under a deterministic scheduler; each case is checked against its own sequential run, against a deadlock/step-budget detector and, in a second "
+                   "binary, by the Go race detector kept live under the serialised schedule. Sampling: a clean run is evidence, not proof.",
+        design_ref="§3.2, §4 C11",
+        level_note="Interleavings are explored at hook granularity (channel, WaitGroup, lock and shared-variable statements found by type in the current AST); "
+                   "dependencies run un-instrumented; go1.26.8 runtime with go1.21 GODEBUG defaults.",
+        technique="deterministic simulation: seeded goroutine scheduler over synctest + channel fault injection + race detector, oracle = sequential run"),
+}
